@@ -14,7 +14,7 @@ import (
 	"verif.local/ref/wsref"
 )
 
-var levelsQuick = []int{1, 0, -2, 9}
+var levelsQuick = []int{1, 0, 9}
 var levelsThorough = []int{1, 0, -2, 9, -1, 2, 3, 4, 5, 6, 7, 8}
 
 func levelsOf(tier string) []int {
@@ -35,6 +35,7 @@ func writePhase(x *explore.Ctx, cfg WConfig, prog int, tier string, mask *MaskRe
 		cfg.Pool = x.Choose(2, "pool") == 1
 	}
 	e := NewWEnv(x, cfg, big)
+	e.Quick = tier == "quick"
 	e.Mask = mask
 	if onErr != nil {
 		e.OnErr = func(ac *APICall) { onErr(e, ac) }
@@ -60,13 +61,18 @@ func writePhase(x *explore.Ctx, cfg WConfig, prog int, tier string, mask *MaskRe
 				break
 			}
 			p = x.Choose(NProgs, pfx+"prog")
-			sz = e.Sizes[x.Choose(len(e.Sizes), pfx+"size")]
+			// (default size of a further message is the 4th boundary size, not 0)
+			sz = e.Sizes[(3+x.Choose(len(e.Sizes), pfx+"size"))%len(e.Sizes)]
 			pick = x.Choose
 		}
 		mt, pat := websocket.BinaryMessage, 0
 		if !cfg.Lean {
 			mt = []int{websocket.TextMessage, websocket.BinaryMessage}[x.Choose(2, pfx+"type")]
-			pat = x.Choose(NPatterns, pfx+"pattern")
+			npat := NPatterns
+			if tier == "quick" {
+				npat = 3
+			}
+			pat = x.Choose(npat, pfx+"pattern")
 		}
 		if cfg.Compress {
 			if cfg.Lean {
@@ -84,18 +90,22 @@ func writePhase(x *explore.Ctx, cfg WConfig, prog int, tier string, mask *MaskRe
 				x.Obs("EnableWriteCompression(%v)", e.WComp)
 			}
 		}
-		if k := x.Choose(1+len(controlKindsIdle), pfx+"ctl-before"); k > 0 {
+		nIdle, nMid := len(controlKindsIdle), len(controlKinds)
+		if tier == "quick" {
+			nIdle, nMid = 4, 2
+		}
+		if k := x.Choose(1+nIdle, pfx+"ctl-before"); k > 0 {
 			ck := controlKindsIdle[k-1]
 			e.Control(ck.variant, ck.mt, Pattern(3, ck.n))
 		}
-		mid := x.Choose(1+3*len(controlKinds), pfx+"ctl-mid")
+		mid := x.Choose(1+3*nMid, pfx+"ctl-mid")
 		positions := []string{"after-nextwriter", "between-writes", "before-close"}
 		between := func(pos string) {
 			if mid == 0 {
 				return
 			}
-			if positions[(mid-1)/len(controlKinds)] == pos {
-				ck := controlKinds[(mid-1)%len(controlKinds)]
+			if positions[(mid-1)/nMid] == pos {
+				ck := controlKinds[(mid-1)%nMid]
 				e.Control(ck.variant, ck.mt, Pattern(3, ck.n))
 			}
 		}
@@ -167,15 +177,25 @@ func readBack(x *explore.Ctx, e *WEnv, id string) {
 	x.NonTrivial()
 	cfg := e.Cfg
 	stream := e.NC.Out
-	rbs := rbsChoices[x.Choose(len(rbsChoices), "ReadBufferSize")]
-	rprog := x.Choose(4, "readprog")
-	rbuf := 4096
-	abandon := 0
-	if rprog == 1 {
-		rbuf = rbufChoices[x.Choose(len(rbufChoices), "readsize")]
-		abandon = x.Choose(4, "abandon-first")
+	nrbs, nrbuf, nchunk := len(rbsChoices), len(rbufChoices), len(chunkChoices)
+	if e.Quick {
+		nrbs, nrbuf, nchunk = 3, 4, 4
 	}
-	chunk := chunkChoices[x.Choose(len(chunkChoices), "chunking")]
+	rbs := rbsChoices[x.Choose(nrbs, "ReadBufferSize")]
+	// one dimension: read program incl. abandoning the first message (so that "abandon, then
+	// read the next message" costs one deviation plus one for the second message)
+	rprog, abandon := 0, 0
+	switch v := x.Choose(8, "readprog"); {
+	case v < 4:
+		rprog = v
+	default:
+		rprog, abandon = 1, v-3 // 1: after 0 bytes, 2: after 1 byte, 3: after half, 4: after 3 bytes
+	}
+	rbuf := 4096
+	if rprog == 1 {
+		rbuf = rbufChoices[x.Choose(nrbuf, "readsize")]
+	}
+	chunk := chunkChoices[x.Choose(nchunk, "chunking")]
 	nc := netsim.NewConn(stream)
 	nc.NoReadLog = true
 	if chunk > 0 {
@@ -212,7 +232,7 @@ func readBack(x *explore.Ctx, e *WEnv, id string) {
 			buf := make([]byte, rbuf)
 			limit := -1
 			if i == 0 && abandon > 0 && len(want) > 0 {
-				limit = []int{0, 0, 1, len(want[0].Payload) / 2}[abandon]
+				limit = min([]int{0, 0, 1, len(want[0].Payload) / 2, 3}[abandon], len(want[0].Payload))
 			}
 			abandoned := false
 			for {
